@@ -42,6 +42,8 @@ CALL_ACTS = [
     (r"^diagnostic_info\.save_info_from_control$", "diag"),
     (r"^(?:control|self)\.geometry_step$", "geomstep"),
     (r"^(?:control|self)\.model\.get_final_results$", "final"),
+    (r"^solve_main$", "run"),
+    (r"^OptimResults$", "optim"),
     (r"^(?:control|self)\.terminate_from_slow_iterations$", "slowtest"),
 ]
 
@@ -266,6 +268,13 @@ def collect_solve_main():
     return block(list(sm.body), P("act", "ret:None", P("ret")), True)
 
 
+def collect_solve():
+    """the WHOLE body of solve (defaults, validation, first run, hard-restart loop, packaging) as a SkelL.Prog"""
+    tree = ast.parse(open(os.path.join(core.REPO, "dfols", "solver.py")).read())
+    sol = [n for n in tree.body if isinstance(n, ast.FunctionDef) and n.name == "solve"][0]
+    return block(list(sol.body), P("act", "ret:None", P("ret")), True)
+
+
 def regenerate_solve_main(ctx=None):
     path = os.path.join(core.LEAN_DIR, "DfolsVerif", "Gen", "SolveMainSkel.lean")
     info = {}
@@ -273,6 +282,14 @@ def regenerate_solve_main(ctx=None):
         prog = collect_solve_main()
         L = ["/-- the whole body of solve_main (prelude, main loop, final statements) -/", "def solveMainBody : SkelL.Prog :=\n %s\n" % prog.lean()]
         info = {"nodes": prog.size()}
+        try:
+            sp = collect_solve()
+            L += ["/-- the whole body of solve -/", "def solveBody : SkelL.Prog :=\n %s\n" % sp.lean()]
+            info["solve_nodes"] = sp.size()
+        except Exception as exc2:
+            if ctx is not None:
+                ctx.broke("gen:solve-skeleton", repr(exc2))
+            L += ["-- TRANSLATION FAILED for solve: %s" % repr(exc2).replace("\n", " ")]
     except Exception as exc:
         if ctx is not None:
             ctx.broke("gen:solve-main-skeleton", repr(exc))
